@@ -122,3 +122,15 @@ fn c04_find_close_ignores_surplus_words() {
     // a match inside the valid bits is unaffected by the surplus word
     assert_eq!(find_close(&[0b01u64, u64::MAX], 2, 0), Some(1));
 }
+
+/// C08, open: RFC 8259's grammar admits any `\uXXXX`; the strict validator rejects a
+/// surrogate escape that is not part of a pair (deliberate strictness, recorded).
+#[test]
+fn c08_unpaired_surrogate_escape_is_rejected() {
+    use succinctly::json::validate::validate;
+    assert!(validate(b"\"\\uDCFD\"").is_err());
+    assert!(validate(b"\"\\uD800\"").is_err());
+    // a proper pair and a non-surrogate escape are accepted
+    assert!(validate(b"\"\\uD83D\\uDE00\"").is_ok());
+    assert!(validate(b"\"\\u00e9\"").is_ok());
+}
